@@ -40,11 +40,17 @@ def cases():
                 a = [fill] * n; a[pos] = v; cs.append(('tm.vec %d %s' % (n, ' '.join(a)), 'vector-' + k))
         for pos in range(8):
             a = [fill] * 8; a[pos] = v; cs.append(('tm.jones %s' % ' '.join(a), 'jones-' + k))
+        for pos in range(4):
+            a = [fill] * 4; a[pos] = v; cs.append(('tm.stokes %s' % ' '.join(a), 'stokes-' + k)); cs.append(('tm.mat22 %s' % ' '.join(a), 'matrix-' + k)); cs.append(('tm.vecvec %s' % ' '.join(a), 'vector-of-vectors-' + k))
+        for pos in range(6):
+            a = [fill] * 6; a[pos] = v; cs.append(('tm.mat23 %s' % ' '.join(a), 'matrix-' + k))
         cs.append(('tm.est %s %s' % (v, fill), 'estimate-value-' + k))
         cs.append(('tm.est %s %s' % (fill, v), 'estimate-variance-' + k))
     for k, v in F.items():
         for pos in range(2):
             a = [F['one'], F['one']]; a[pos] = v; cs.append(('tm.cxf %s' % ' '.join(a), 'complex-float-' + k))
+        for pos in range(4):
+            a = [F['one']] * 4; a[pos] = v; cs.append(('tm.stokesf %s' % ' '.join(a), 'stokes-float-' + k))
         cs.append(('tm.estf %s %s' % (v, F['one']), 'estimate-float-' + k))
     for k, v in LD.items():
         cs.append(('tm.estld %s %s' % (v, LD['one']), 'estimate-longdouble-' + k))
